@@ -40,7 +40,7 @@ theorem N2_DTAU_DF__C_TAU_JAUMANN (hc : c * c = 2) (h2 : (2:K) ≠ 0)
   generalize_ne hd0 => e0 he0
   generalize_ne hd2 => e2 he2
   (try (repeat' apply And.intro))
-  all_goals (first | rfl | (field_simp <;> (try simp only [← he0, ← he2]) <;> c23_ring hc))
+  all_goals (first | rfl | (field_simp <;> (try simp only [← he0, ← he2]) <;> c23_field hc))
 
 /-- `DSIG_DF ← DSIG_DDF` (2D): along every variation `δF = L F` the converted operator, applied to the
 rate of its kinematic variable, gives the rate of the Cauchy stress that reproduces the same Lie derivative of
@@ -59,7 +59,7 @@ theorem N2_DSIG_DF__DSIG_DDF (hc : c * c = 2) (h2 : (2:K) ≠ 0)
   c23_unfold
   generalize_ne hd0 => e0 he0
   (try (repeat' apply And.intro))
-  all_goals (first | rfl | (field_simp <;> (try simp only [← he0]) <;> c23_ring hc))
+  all_goals (first | rfl | (field_simp <;> (try simp only [← he0]) <;> c23_field hc))
 
 /-- `DPK1_DF ← DSIG_DF` (2D): along every variation `δF = L F` the converted operator, applied to the
 rate of its kinematic variable, gives the rate of the first Piola–Kirchhoff stress that reproduces the same Lie derivative of
